@@ -32,6 +32,23 @@ Added for the run filters (spec `lean/gen/run_filter.json`):
 * `super(C, self).m(args)`; `a and b` / `a or b` whose operands may raise (short-circuit in `Option`);
 * `raise E(...)` (= `none`); `for x in xs: if c: return e` followed by more statements (`forFirst`);
   `for x in xs: <body without return>` in a self-mutating method (`forEachM`).
+
+Added for the warm-up / recording rule (spec `lean/gen/warmup.json`):
+* unit kind `trace`: a method is translated to the list of *events* it performs -- the calls declared under
+  `events` (e.g. `run_id.add_data_point(dp, flag)`), in order; other methods of kind `trace` called on `self`
+  are spliced in.  Declared `inputs` (source text -> parameter) stand for the values the method reads from
+  its environment (`run_id.warmup_iterations`, `run_id.is_profiling()`, the list returned by
+  `gauge_adapter.parse_data(...)`); they are parameters of the generated function, not interpreted.
+* in a `trace` unit the locals listed under `ignore_locals` (UI only: `msg`, `i`, ...), the calls under
+  `ignore_calls` and assignments to the `self` attributes under `ignore_fields` are dropped, **but only** if
+  they never flow into anything kept: an ignored name inside a kept expression, or an `if` that tests an
+  ignored name and contains a kept statement, is refused.  Of `try: ... except ...:` only the `try` body is
+  translated (`none` already stands for "raises").
+* `for x in xs:` with loop-carried locals (state = the kept locals assigned in the body, and the trace);
+  `x -= e` / `x += e`, `a - b`, `a + b`, `<`, `<=`, `>`, `>=` on ints (`V.sub`, `V.add`, `V.lt`, ...: `none`
+  on anything that is not an int or bool); the conditional expression `a if c else b`.
+* unit kind `call_arg`: the n-th argument of the one call of a given method inside a function, as a function
+  of the declared inputs (the reload rule inside `_parse_data_line`).
 """
 import ast
 import json
@@ -82,6 +99,10 @@ class Fn(object):
         self.methods = ctx.get('methods', {})    # (class or union, method) -> [{'params': [(n, t)], 'ret': t, 'lean': name}]
         self.bases = ctx.get('bases', {})        # class -> base class (declared records only)
         self.cls = ctx.get('cls')                # class of the unit being translated
+        self.inputs = ctx.get('inputs', {})      # source text -> (lean term, type): values read from the environment
+        self.tr = ctx.get('trace')               # trace mode: {'events', 'ignore_locals', 'ignore_calls', 'ignore_fields', 'units'}
+        self.fall = None                         # what falling off the end of the current block means (trace mode)
+        self.in_loop = False
 
     def ftype(self, cls, field):
         return self.ftypes.get(cls, {}).get(field, 'V')
@@ -124,6 +145,34 @@ class Fn(object):
     # ------------------------------------------------------------ expressions
     # expr() returns (binds, term, type) where binds = [(name, option-term)], evaluated in order
     def expr(self, e, env):
+        if self.inputs:
+            key = ast.unparse(e)
+            if key in self.inputs:
+                return [], self.inputs[key][0], self.inputs[key][1]
+        if self.tr and isinstance(e, ast.Name) and e.id in self.tr['ignore_locals']:
+            raise Unsupported('the ignored local %s flows into a kept expression' % e.id)
+        if isinstance(e, ast.BinOp) and isinstance(e.op, (ast.Sub, ast.Add)):
+            b1, a, ta = self.expr(e.left, env)
+            b2, c, tc = self.expr(e.right, env)
+            if ta != 'V' or tc != 'V':
+                raise Unsupported('arithmetic on non-values')
+            n = self.fresh()
+            return b1 + b2 + [(n, '(V.%s %s %s)' % ('sub' if isinstance(e.op, ast.Sub) else 'add', a, c))], n, 'V'
+        if isinstance(e, ast.IfExp):
+            bc, tc = self.cond(e.test, env)
+            ba, ta, tya = self.expr(e.body, env)
+            bb, tb, tyb = self.expr(e.orelse, env)
+            conv = lambda t_, ty_, node: (('true' if node.value else 'false'), 'Bool') \
+                if isinstance(node, ast.Constant) and isinstance(node.value, bool) else (t_, ty_)
+            if 'Bool' in (tya, tyb):
+                ta, tya = conv(ta, tya, e.body)
+                tb, tyb = conv(tb, tyb, e.orelse)
+            if tya != tyb:
+                raise Unsupported('conditional expression of types %s / %s' % (tya, tyb))
+            n = self.fresh()
+            wa = Fn.wrap_inline(ba, 'some %s' % ta)
+            wb = Fn.wrap_inline(bb, 'some %s' % tb)
+            return bc + [(n, '(if %s then %s else %s)' % (tc, wa, wb))], n, tya
         if isinstance(e, ast.Constant):
             v = e.value
             if v is None:
@@ -188,6 +237,10 @@ class Fn(object):
                 return b1 + b2, '(V.pyeq %s %s)' % (a, c), 'Bool'
             if isinstance(op, ast.NotEq):
                 return b1 + b2, '(! (V.pyeq %s %s))' % (a, c), 'Bool'
+            order = {ast.Lt: 'lt', ast.LtE: 'le', ast.Gt: 'gt', ast.GtE: 'ge'}.get(type(op))
+            if order:
+                n = self.fresh()                          # TypeError on anything but numbers = none
+                return b1 + b2 + [(n, '(V.%s %s %s)' % (order, a, c))], n, 'Bool'
             raise Unsupported('comparison %s' % type(op).__name__)
         if isinstance(e, ast.UnaryOp) and isinstance(e.op, ast.USub) and isinstance(e.operand, ast.Constant) \
                 and isinstance(e.operand.value, int) and not isinstance(e.operand.value, bool):
@@ -210,8 +263,11 @@ class Fn(object):
                 term = self.opt_term(e.values[-1], env)
                 for v in reversed(e.values[:-1]):
                     n = self.fresh()
+                    ot = self.opt_term(v, env)
+                    if ot.startswith('some '):
+                        ot = '(%s)' % ot
                     term = '(%s.bind fun %s => if %s then %s else %s)' % (
-                        self.opt_term(v, env), n, n,
+                        ot, n, n,
                         term if is_and else 'some true', 'some false' if is_and else term)
                 n = self.fresh()
                 return [(n, term)], n, 'Bool'
@@ -339,16 +395,119 @@ class Fn(object):
 
     # ------------------------------------------------------------ statements
     @staticmethod
+    def wrap_inline(binds, body):
+        out = ''
+        for (n, t) in binds:
+            out += '%s.bind fun %s => ' % (t, n)
+        return '(' + out + body + ')'
+
+    @staticmethod
     def wrap(binds, body, pad):
         out = ''
         for (n, t) in binds:
             out += pad + '%s.bind fun %s =>\n' % (t, n)
         return out + body
 
+    # ------------------------------------------------------------ trace units
+    def reads_ignored(self, node):
+        return any(isinstance(n_, ast.Name) and n_.id in self.tr['ignore_locals'] for n_ in ast.walk(node)) or \
+            any(isinstance(n_, ast.Attribute) and isinstance(n_.value, ast.Name) and n_.value.id == 'self'
+                and n_.attr in self.tr['ignore_fields'] for n_ in ast.walk(node))
+
+    def droppable(self, s):
+        """a statement that only concerns ignored (UI-only) names / calls / fields"""
+        if isinstance(s, (ast.Assign, ast.AugAssign)):
+            tgs = s.targets if isinstance(s, ast.Assign) else [s.target]
+            return all((isinstance(t, ast.Name) and t.id in self.tr['ignore_locals']) or
+                       (isinstance(t, ast.Attribute) and isinstance(t.value, ast.Name) and t.value.id == 'self'
+                        and t.attr in self.tr['ignore_fields']) for t in tgs)
+        if isinstance(s, ast.Expr) and isinstance(s.value, ast.Call):
+            return ast.unparse(s.value.func) in self.tr['ignore_calls']
+        if isinstance(s, ast.If):
+            return all(self.droppable(x) for x in list(s.body) + list(s.orelse))
+        return False
+
+    def trace_stmt(self, s, rest, env, ret, self_ty, indent):
+        pad = '  ' * indent
+        if self.droppable(s):
+            return self.block(rest, env, ret, self_ty, indent)
+        if isinstance(s, ast.If) and self.reads_ignored(s.test):
+            raise Unsupported('an `if` that tests an ignored name contains a kept statement')
+        if isinstance(s, (ast.Continue, ast.Break)):
+            raise Unsupported('%s in a trace unit' % type(s).__name__.lower())
+        if isinstance(s, ast.Try):
+            if s.finalbody or s.orelse:
+                raise Unsupported('try with else / finally')
+            # only the try body: an exception is `none` in any case
+            return self.block(list(s.body) + rest, env, ret, self_ty, indent)
+        if isinstance(s, ast.AugAssign) and isinstance(s.target, ast.Name) and isinstance(s.op, (ast.Sub, ast.Add)):
+            new = ast.Assign(targets=[s.target], value=ast.BinOp(left=ast.Name(id=s.target.id, ctx=ast.Load()),
+                                                                   op=s.op, right=s.value))
+            return self.block([new] + rest, env, ret, self_ty, indent)
+        if isinstance(s, ast.Expr) and isinstance(s.value, ast.Call):
+            fn = ast.unparse(s.value.func)
+            ev = self.tr['events'].get(fn)
+            if ev is not None:
+                given = ([s.value.func.value] if ev.get('receiver') else []) + list(s.value.args)
+                if s.value.keywords or len(given) != len(ev['args']):
+                    raise Unsupported('event %s: arguments' % fn)
+                binds, terms = [], []
+                for a, want in zip(given, ev['args']):
+                    if want == 'Bool' and isinstance(a, ast.Constant) and isinstance(a.value, bool):
+                        b_, t_, ty_ = [], 'true' if a.value else 'false', 'Bool'
+                    else:
+                        b_, t_, ty_ = self.expr(a, env)
+                    if ty_ != want:
+                        raise Unsupported('event %s: argument of type %s, declared %s' % (fn, ty_, want))
+                    binds += b_
+                    terms.append(t_)
+                body = pad + 'let trace := trace ++ [Event.%s %s]\n' % (ev['name'], ' '.join(terms)) + \
+                    self.block(rest, env, ret, self_ty, indent)
+                return self.wrap(binds, body, pad)
+            sub = self.tr['units'].get(fn)
+            if sub is not None:                               # another trace unit, spliced in
+                b_, terms, types = self.args(s.value, env)
+                if types != sub['types']:
+                    raise Unsupported('%s called with %s' % (fn, types))
+                n = self.fresh()
+                body = pad + 'let trace := trace ++ %s\n' % n + self.block(rest, env, ret, self_ty, indent)
+                return self.wrap(b_ + [(n, '(%s %s)' % (sub['lean'], ' '.join(sub['extra'] + terms)))], body, pad)
+            raise Unsupported('call %s in a trace unit is neither an event nor ignored' % fn)
+        if isinstance(s, ast.For):
+            if s.orelse or not isinstance(s.target, ast.Name):
+                raise Unsupported('for ... else / tuple target')
+            b, t, ty = self.expr(s.iter, env)
+            if not ty.startswith('List '):
+                raise Unsupported('for over a %s' % ty)
+            x = s.target.id
+            assigned = []
+            for st in s.body:
+                for n_ in ast.walk(st):
+                    if isinstance(n_, (ast.Assign, ast.AugAssign)):
+                        for tg in (n_.targets if isinstance(n_, ast.Assign) else [n_.target]):
+                            if isinstance(tg, ast.Name) and tg.id not in self.tr['ignore_locals'] and tg.id not in assigned:
+                                assigned.append(tg.id)
+            for a in assigned:
+                if a not in env or a == x:
+                    raise Unsupported('loop-carried local %s is not defined before the loop' % a)
+            state = [lean_name(a) for a in assigned] + ['trace']
+            tup = '(' + ', '.join(state) + ')' if len(state) > 1 else state[0]
+            saved = (self.fall, self.in_loop)
+            self.fall, self.in_loop = 'some %s' % tup, True
+            inner = self.block(list(s.body), dict(env, **{x: ty[5:]}), ret, self_ty, indent + 2)
+            self.fall, self.in_loop = saved
+            after = self.block(rest, env, ret, self_ty, indent)
+            term = pad + '(forEachM %s %s (fun st %s =>\n%s  let %s := st\n%s)).bind fun st =>\n%slet %s := st\n%s' % (
+                t, tup, lean_name(x), pad + '  ', tup, inner, pad, tup, after)
+            return self.wrap(b, term, pad)
+        return None
+
     def block(self, stmts, env, ret, self_ty, indent):
         """statement list -> one Lean term of type `Option ret`"""
         pad = '  ' * indent
         if not stmts:
+            if self.fall is not None:
+                return pad + self.fall
             if self_ty is not None:
                 return pad + 'some self'
             if ret == 'V':
@@ -359,7 +518,13 @@ class Fn(object):
             return self.block(rest, env, ret, self_ty, indent)
         if isinstance(s, ast.Pass):
             return self.block(rest, env, ret, self_ty, indent)
+        if self.tr:
+            r_ = self.trace_stmt(s, rest, env, ret, self_ty, indent)
+            if r_ is not None:
+                return r_
         if isinstance(s, ast.Return):
+            if self.tr and (self.in_loop or s.value is not None):
+                raise Unsupported('return inside a loop / with a value in a trace unit')
             if s.value is None:
                 return self.block([], env, ret, self_ty, indent)
             if ret == 'Bool' and isinstance(s.value, ast.Constant) and isinstance(s.value.value, bool):
@@ -629,6 +794,35 @@ def translate(spec, repo):
         emit(name)
     for un in spec.get('unions', []):
         emit(un['name'])
+    events = {}
+    if spec.get('events'):
+        out.append('/-- the calls that are kept as events, in the order they happen -/')
+        out.append('inductive Event where')
+        for ev in spec['events']:
+            events[ev['call']] = {'name': ev['name'], 'args': list(ev['args']), 'receiver': ev.get('receiver', False)}
+            out.append('  | %s %s' % (ev['name'], ' '.join('(a%d : %s)' % (k, lean_ty_atom(t)) for k, t in enumerate(ev['args']))))
+        out.append('deriving Repr, DecidableEq')
+        out.append('')
+
+    def unit_inputs(u):
+        """declared readings of the environment: source text -> (term, type); those with a `param` become parameters"""
+        table, params = {}, []
+        for text, d in u.get('inputs', {}).items():
+            if 'param' in d:
+                table[text] = (lean_name(d['param']), d['type'])
+                if (d['param'], d['type']) not in params:
+                    params.append((d['param'], d['type']))
+            else:
+                table[text] = (d['term'], d['type'])
+        return table, params
+    trace_units = {}
+    for u in spec['units']:
+        if u.get('kind') == 'trace':
+            _tbl, ip = unit_inputs(u)
+            trace_units['self.' + u['name']] = {
+                'lean': '%s_%s' % (cls_name(u['class']), u['name'].lstrip('_')),
+                'types': [t for (_n, t) in u['params'].items() if t != 'Opaque'],
+                'extra': [lean_name(n_) for (n_, _t) in ip]}
 
     def signature(first, params):
         return ' '.join(first + ['(%s : %s)' % (lean_name(p_), lean_ty(t)) for p_, t in params.items()])
@@ -738,6 +932,37 @@ def translate(spec, repo):
             body = Fn.wrap(binds, '  let self : %s := %s\n%s' % (cls_name(cls), lit, body), '  ')
             out.append('def %s_init %s : Option %s :=\n%s\n' % (
                 cls_name(cls), signature([], u['params']), cls_name(cls), body))
+        elif kind == 'trace':
+            want = ['self'] + list(u['params'])
+            if got != want:
+                raise Unsupported('signature of %s.%s is %s, spec says %s' % (u['class'], u['name'], got, want))
+            table, iparams = unit_inputs(u)
+            tr = Fn(spec, records, funcs, dict(ctx, cls=u.get('class'), inputs=table, trace={
+                'events': events, 'ignore_locals': set(u.get('ignore_locals', [])),
+                'ignore_calls': set(u.get('ignore_calls', [])), 'ignore_fields': set(u.get('ignore_fields', [])),
+                'units': dict((k_, v_) for k_, v_ in trace_units.items() if k_ != 'self.' + u['name'])}))
+            env = dict((p_, t) for p_, t in u['params'].items() if t != 'Opaque')
+            tr.fall = 'some trace'
+            body = tr.block(fn.body, env, 'List Event', None, 1)
+            sig = ' '.join(['(%s : %s)' % (lean_name(n_), lean_ty(t)) for (n_, t) in iparams] +
+                           ['(%s : %s)' % (lean_name(p_), lean_ty(t)) for p_, t in u['params'].items() if t != 'Opaque'])
+            out.append('/-- the events of `%s.%s` (of a `try` statement only the body is translated) -/' % (u['class'], u['name']))
+            out.append('def %s_%s %s : Option (List Event) :=\n  let trace : List Event := []\n%s\n' % (
+                cls_name(u['class']), u['name'].lstrip('_'), sig, body))
+        elif kind == 'call_arg':
+            # the n-th argument of the one call of `call` inside the function, as a function of the inputs
+            table, iparams = unit_inputs(u)
+            hits = [n_ for n_ in ast.walk(fn) if isinstance(n_, ast.Call) and ast.unparse(n_.func) == u['call']]
+            if len(hits) != 1 or hits[0].keywords or len(hits[0].args) <= u['arg']:
+                raise Unsupported('%s: expected exactly one call of %s with argument %d' % (u['name'], u['call'], u['arg']))
+            tr = Fn(spec, records, funcs, dict(ctx, cls=u.get('class'), inputs=table))
+            b_, t_, ty_ = tr.expr(hits[0].args[u['arg']], {})
+            if ty_ != u['returns']:
+                raise Unsupported('%s: the argument is a %s, spec says %s' % (u['lean_name'], ty_, u['returns']))
+            sig = ' '.join('(%s : %s)' % (lean_name(n_), lean_ty(t)) for (n_, t) in iparams)
+            out.append('/-- argument %d of `%s(...)` in `%s.%s` -/' % (u['arg'], u['call'], u.get('class'), u['name']))
+            out.append('def %s %s : Option %s :=\n%s\n' % (u['lean_name'], sig, u['returns'],
+                                                           Fn.wrap(b_, '  some %s' % t_, '  ')))
         else:
             raise Unsupported('unit kind %s' % kind)
     out.append('end %s' % spec['namespace'])
